@@ -33,6 +33,9 @@ def run_reader_check(v, prop, tier, ops_of_interest, ev):
     resu, scensu = scenarios_from_writer("Writer.scen.uni.cfg", prop.lower() + "-scenu")
     richu = [s for s in scensu if len(s["files"]) >= 2 and any(len(i["offs"]) >= 2 for i in s["hid"]["info"])]
     chosen += pick(richu or scensu, 3 if tier == "quick" else 10, seed() + 18, rich_share=0)
+    # ... and one archive whose two names are prefix-related (`a`, `ab`)
+    pref = [s for s in richu if {f["name"] for f in s["files"]} == {"a", "ab"}]
+    chosen += pref[:1]
     wd = workdir(prop.lower())
     sp = os.path.join(wd, "scen.json")
     sj = [scen_json(s) for s in chosen]
